@@ -122,14 +122,6 @@ HMinusHdr(s, k, line) ==
       s1 == Flush([s0 EXCEPT !.mf = line.f, !.mev = ev, !.syn = line.f])   \* set_syntax(old name; None for /dev/null)
   IN FallThrough(s1, k)
 
-\* handle_diff_header_plus_line: writes the file header, then falls through
-HPlusHdr(s, k, line) ==
-  LET ev == CASE line.c = "rento" -> "rename" [] line.c = "copyto" -> "copy" [] OTHER -> "change"
-      s1 == Flush([s EXCEPT !.pf = line.f, !.pev = ev, !.cur = <<s.mf, line.f>>,
-                            !.syn = IF line.f = 0 /\ "D20" \in Fixes THEN @ ELSE line.f])   \* set_syntax(new name)
-      s2 == IF s1.handled # s1.cur THEN WriteHeader(Emit(s1)) ELSE s1
-  IN FallThrough(s2, k)
-
 \* handle_hunk_header_line: only remembers the header
 HHunkHeader(s, k, line) == [s EXCEPT !.st = "HunkHeader", !.hh = k,
                                         !.m3 = IF @ = NotNeeded THEN @ ELSE line.g]   \* count_from(old-side length)
@@ -163,6 +155,16 @@ HHunkLine(s, k, line) ==
               [] OTHER ->
                    LET a == Flush(s1) IN [a EXCEPT !.ob = Append(@, Row("raw", k, <<>>)), !.st = "HunkZero"]
   IN Emit(s2)
+
+\* handle_diff_header_plus_line: writes the file header, then falls through
+HPlusHdr(s, k, line) ==
+  LET ev == CASE line.c = "rento" -> "rename" [] line.c = "copyto" -> "copy" [] OTHER -> "change"
+      s1 == Flush([s EXCEPT !.pf = line.f, !.pev = ev, !.cur = <<s.mf, line.f>>,
+                            !.syn = IF line.f = 0 /\ "D20" \in Fixes THEN @ ELSE line.f])   \* set_syntax(new name)
+      s2 == IF s1.handled # s1.cur THEN WriteHeader(Emit(s1)) ELSE s1
+  IN \* (the handler does not claim the line: inside a hunk - a "+++ x" look-alike of a diff -u stream - the
+     \* chain goes on to handle_hunk_line, which shows it as an added line as well)
+     IF s2.st \in HunkStates THEN HHunkLine(s2, k, line) ELSE FallThrough(s2, k)
 
 \* handle_merge_conflict_line (combined diffs only; comes before handle_hunk_line in the chain)
 \* paint_buffered_merge_conflict_lines: two comparisons against the common ancestor
